@@ -443,14 +443,14 @@ class Sweep:
                         self.one(W, prog, cls, label, inst, tg, ex, opts)
                 if acc:
                     # generic value classes: quick = one accepted target per value (round-robin over
-                    # the accepted targets), thorough = up to 3 accepted targets per value
+                    # the accepted targets), thorough = up to 2 accepted targets per value
                     gg = dyn.generic_grid(cls)
                     if not (ctx.thorough or grid_full) and W.domain:
                         # quick, PSy-layer programs: only the set-but-falsy classes
                         gg = [o for o in gg if not list(o.values())[0]]
                     for i, opts in enumerate(gg):
                         if ctx.thorough or grid_full:
-                            picks = [acc[(i + j) % len(acc)] for j in range(min(3, len(acc)))]
+                            picks = [acc[(i + j) % len(acc)] for j in range(min(2, len(acc)))]
                         else:
                             picks = [acc[i % len(acc)]]
                         for tg, ex in picks:
